@@ -199,6 +199,28 @@ def gen_add_part(rng, lattice, nmax, prefix="c"):
     if lattice and n >= 2 and rng.random() < 0.3:
         cols[-1]["spec"] = dict(cols[0]["spec"])
         cols[-1]["pose"] = [list(r) for r in cols[0]["pose"]]   # coincident collider
+    if not lattice and rng.random() < 0.5:
+        # probes at extreme points: a small sphere centred on a corner of a (non-cubic, generally rotated) box, or on the
+        # rim of a cylinder — a real collision that the broad phase only keeps if the AABB reaches its extreme points
+        extra = []
+        for c in cols:
+            if len(extra) >= 2:
+                break
+            A = np.array(c["pose"], dtype=float)
+            sp = c["spec"]
+            if sp["shape"] == "box":
+                loc = 0.5 * np.array(sp["size"]) * np.array([rng.choice([-1, 1]) for _ in range(3)])
+            elif sp["shape"] == "cylinder":
+                a_ = rng.uniform(0, 2 * np.pi)
+                loc = np.array([sp["radius"] * np.cos(a_), sp["radius"] * np.sin(a_), rng.choice([-0.5, 0.5]) * sp["length"]])
+            else:
+                continue
+            P = np.eye(4)
+            P[:3, 3] = A[:3, :3].dot(loc) + A[:3, 3]
+            c["static"] = True      # the pair keeps its relative placement through every step of the scenario
+            extra.append({"frame": "%sp%d" % (prefix, len(extra)), "spec": {"shape": "sphere", "radius": rng.uniform(0.02, 0.06)},
+                          "pose": P.tolist(), "static": True})
+        cols += extra
     if lattice and n >= 3 and rng.random() < 0.2:
         # planar scene: the leading colliders are zero-thickness tiles in one plane (floor tiles, a printed circuit):
         # every AABB that encloses several of them has volume 0 however far it extends
@@ -263,6 +285,8 @@ def gen_scenario(rng, stream):
     for _ in range(rng.choice([1, 2, 3])):
         st = {}
         for c in cols:
+            if c.get("static"):
+                continue
             if rng.random() < 0.7:
                 st[c["frame"]] = lattice_pose(rng) if lattice else rand_pose(rng, 0.8)
         steps.append(st)
@@ -530,7 +554,10 @@ def oracle(sc, rec):
             continue   # precondition of detect not met (KeyError is the documented behaviour; compared with the model)
         H = set((f, g) for f, g in ob["hits"])
         # hits whose AABBs do not overlap (cannot happen in exact arithmetic for enclosing AABBs) are rounding ties
-        tie = set((f, g) for (f, g) in H if not overlap(ob["aabb"][f], ob["aabb"][g]))
+        # — but only when the boxes miss each other by rounding (gap <= 1e-9): a colliding pair whose AABBs are clearly
+        # apart means that an AABB does not enclose its collider, and then detect's miss is a violation
+        tie = set((f, g) for (f, g) in H if not overlap(ob["aabb"][f], ob["aabb"][g])
+                  and aabb_gap(ob["aabb"][f], ob["aabb"][g]) <= 1e-9)
         if not ob["det"]["ok"]:
             bad.append(("detect:raised", {"step": k, "err": ob["det"]["err"], "msg": ob["det"].get("msg")}))
         else:
